@@ -71,12 +71,28 @@ def gen_items(rng, maxn, kmax=6):
     return items
 
 
+def _repeated(rng, words):
+    """The keyword written once more inside the list, now and then in the
+    plural ('Sections 1 - 3 and Secs. 5 - 7'); the plural of an abbreviated
+    section word keeps its period."""
+    w = rng.choice(words)
+    if rng.random() < 0.4 and w != '§':
+        if not w.endswith('.'):
+            w += 's'
+        elif words is SEC_WORDS:
+            w = w[:-1] + 's.'
+    return w
+
+
 def render(rng, items, words, acreage=False):
     w = rng.choice(words)
     multi = len(items) > 1 or isinstance(items[0], tuple)
     plural = (multi and rng.random() < 0.6 and not w.endswith('.')
               and w != '§')
     s = w + ('s' if plural else '')
+    if (multi and words is SEC_WORDS and w in ('Sec.', 'Sect.')
+            and rng.random() < 0.5):
+        s = w[:-1] + 's.'
     s += '' if (w == '§' and rng.random() < 0.5) else ' '
     parts = []
     for i, it in enumerate(items):
@@ -96,7 +112,7 @@ def render(rng, items, words, acreage=False):
                 # keyword repeated after the 'through'
                 if j.strip() and j == j.strip():
                     j = f" {j} "
-                right = f"{rng.choice(words)} {right}"
+                right = f"{_repeated(rng, words)} {right}"
             p = f"{it[0]}{j}{right}"
         else:
             p = str(it)
@@ -104,7 +120,7 @@ def render(rng, items, words, acreage=False):
                 ac = f"{rng.randint(1, 60)}.{rng.randint(0, 99):02d}"
                 p += rng.choice([f"({ac})", f" ({ac})", f" [{ac}]"])
         if i > 0 and rng.random() < 0.25:
-            p = f"{rng.choice(words)} {p}"        # repeated keyword
+            p = f"{_repeated(rng, words)} {p}"    # repeated keyword
         parts.append(p)
     out = parts[0]
     for i, p in enumerate(parts[1:], 1):
@@ -178,6 +194,23 @@ def check_sec(items, txt, ctx, rep, pytrs):
                     f"sections {got4} (expected {e}), non-sequential warning "
                     f"{ns3} (descending range present: {desc}); w_flags "
                     f"{d3.w_flags}", dedup=f"{got4 != e}")
+        # The list ends the description (whole sections, nothing said
+        # about them), alone and as the last block of two.
+        ctx.hit('boundary:PLSSDesc:list-ends-text')
+        for full4, lead in ((f"T154N-R97W {txt}", []),
+                            (f"T155N-R98W Sec 1: NE/4, T154N-R97W {txt}",
+                             ['155n98w01'])):
+            d4 = pytrs.PLSSDesc(full4)
+            got5 = [t.trs for t in d4.tracts]
+            if got5 != lead + [f"154n97w{x}" for x in e] or \
+                    any(t.desc for t in d4.tracts[len(lead):]):
+                ctx.violation(
+                    'tract-sections-list-ends-text', case,
+                    f"PLSSDesc({full4!r}) gives "
+                    f"{[(t.trs, t.desc) for t in d4.tracts][:8]}, expected "
+                    f"sections {e} with an empty description (e_flags "
+                    f"{d4.e_flags})", dedup=f"ends|{len(lead)}")
+                break
         # The same list in the desc-Sec-Twp/Rge layout.
         full2 = f"NE/4 of {txt}, T154N-R97W"
         d2 = pytrs.PLSSDesc(full2)
@@ -232,6 +265,12 @@ def check_lot(items, txt, ctx, rep, pytrs):
                           f"PLSSDesc('T154N-R97W Sec 14: {txt}') lots "
                           f"{[x.lots for x in d.tracts]}, expected {e}",
                           dedup='lots2')
+        elif any('nonsequential' in f for f in d.tracts[0].w_flags) != desc:
+            ctx.violation('nonsequential-flag', case,
+                          f"PLSSDesc('T154N-R97W Sec 14: {txt}', parse_qq="
+                          f"True): descending range present={desc} but the "
+                          f"tract's warnings are {d.tracts[0].w_flags}",
+                          dedup=f"plss|{desc}")
 
 
 class UnpackBroken(Exception):
